@@ -162,6 +162,18 @@ func (c *Ctx) Explore(name string, params map[string]any, bound int, run explore
 	if os.Getenv("VERIF_DEBUG") != "" {
 		fmt.Fprintf(os.Stderr, "unit %s\n", name)
 	}
+	if vrt.RaceEnabled {
+		inner := run
+		prop := c.Prop
+		raceDelta() // reports before this unit belong to nobody
+		run = func(e *explore.Exec) explore.Verdict {
+			v := inner(e)
+			if n, sig, text := raceDelta(); n > 0 && v.Violation == "" {
+				v.Violation, v.Signature, v.Detail = "data race (ThreadSanitizer on the explored schedule's happens-before relation): "+sig, prop+":race:"+sig, text
+			}
+			return v
+		}
+	}
 	// iterated deviation bound: 0, 1, ..., bound; the highest bound completed is reported
 	var samples []any
 	deadline := c.unitDeadline()
@@ -228,6 +240,9 @@ func (c *Ctx) Explore(name string, params map[string]any, bound int, run explore
 		// determinism: the recorded choice list must reproduce the same verdict every time
 		Tracing = true
 		for i := 0; i < 3; i++ {
+			if strings.Contains(v.Signature, ":race:") {
+				break // ThreadSanitizer reports each racing pair once per process: a replay here stays silent by design
+			}
 			_, rv := explore.Replay(run, v.Choices)
 			if rv.Signature != v.Signature {
 				c.Out.ToolingError = fmt.Sprintf("unit %s: violation %q did not reproduce on replay %d (got %q): nondeterminism in the harness", name, v.Signature, i, rv.Signature)
